@@ -75,6 +75,14 @@ func eval(frame []byte, class, mode string, code uint8, res *ev.Result, lc *loca
 		return
 	}
 	_ = closeConn
+	if class == "short-length-field" {
+		// 8 or more bytes whose MBAP length field announces fewer bytes than a request can have: not a request. Only
+		// "no panic, and a reply, if any, is a 9-byte exception ADU" is demanded.
+		if reply != nil && fc >= 1 && fc < 128 && (len(reply)%9 != 0 || reply[2] != 0 || reply[3] != 0 || reply[4] != 0 || reply[5] != 3 || reply[7]&0x80 == 0) {
+			bad("reply-not-9-byte-exception", fmt.Sprintf("reply %x", reply))
+		}
+		return
+	}
 	// a frame with MBAP length < 2 is not delimited (fewer than 8 bytes): no reply is required
 	if len(frame) < 8 {
 		if reply != nil {
@@ -311,6 +319,20 @@ func run(tier string, shard, nsh int, res *ev.Result) {
 				f := append(append([]byte(nil), ff...), lib.Pattern("pos", ext, 0)...)
 				f[4], f[5] = byte((len(f)-6)>>8), byte(len(f)-6)
 				eval(f, "overlong-body", "device", 0, res, lc)
+			}
+		}
+	})
+	// (4b) eight or more bytes on the wire whose length field says 0, 1 or 2: every function code
+	add(func(lc *local) {
+		for fc := 0; fc < 256; fc++ {
+			for l := 0; l <= 2; l++ {
+				if l == 2 && fc == 17 {
+					continue // that is the (complete) read-server-id request
+				}
+				for _, extra := range []int{0, 1, 4, 12} {
+					f := append([]byte{0x31, 0x32, 0, 0, 0, byte(l), 0x07, byte(fc)}, lib.Pattern("pos", extra, 0)...)
+					eval(f, "short-length-field", "device", 0, res, lc)
+				}
 			}
 		}
 	})
